@@ -810,10 +810,14 @@ yet inside the induction of `ast2ast_if_preserved`. -/
 
 open QV.A2A in
 /-- what `ReplaceTypeAnn` makes of `Qlist[T, n]` and `Qmatrix[T, n, m]`: the types `visit_Subscript` / `__unroll_arg`
-find in the environment (`n` rows, each a bare tuple of `m` elements) -/
-theorem qmatrix_type (T : SExp) (n m : Nat) :
-    replaceAnn (qlistAnn T n) = .ok (listTy T n) ∧ replaceAnn (qmatrixAnn T n m) = .ok (matrixTy T n m) :=
-  ⟨replaceAnn_qlist T n, replaceAnn_qmatrix T n m⟩
+find in the environment (`n` rows, each a bare tuple of `m` elements); the element annotation is elaborated first, so
+containers nest (`Qlist[Qlist[T, m], n]`), and a one-element `Tuple[bool]` is a one-element tuple type (f3ecbf2) -/
+theorem qmatrix_type (T T' : SExp) (n m : Nat) (hT : replaceAnn T = .ok T') :
+    replaceAnn (qlistAnn T n) = .ok (listTy T' n) ∧ replaceAnn (qmatrixAnn T n m) = .ok (matrixTy T' n m) ∧
+    replaceAnn (qlistAnn (qlistAnn T m) n) = .ok (listTy (listTy T' m) n) ∧
+    replaceAnn (.sub (.name "Tuple") (.name "bool")) = .ok (listTy (.name "bool") 1) :=
+  ⟨replaceAnn_qlist T T' n hT, replaceAnn_qmatrix T T' n m hT, replaceAnn_qlist_qlist T T' n m hT,
+    replaceAnn_tuple1_bool⟩
 
 open QV.A2A in
 /-- **C01_index1_partial** – `t[i]` with a variable index.  For a variable whose type has `n + 1` elements (`Qlist[T, n+1]`,
@@ -883,15 +887,19 @@ example :
 open QV.A2A in
 /-- **C01_unroll_partial** – `__unroll_arg`: a tuple-typed name unrolls into its elements `t[0] … t[n-1]`; a row `L[c]` of
 a variable whose type is a tuple of rows unrolls into `L[c][0] … L[c][k-1]` with `k` the length of **that row** (for
-`Qmatrix[T, n, m]`: `m`, whatever `n`; the repaired `C01-matrix-row-length`) -/
+`Qmatrix[T, n, m]`: `m`, whatever `n`; the repaired `C01-matrix-row-length`); for `len` / `sum` / `any` / `all` /
+one-argument `min` / `max` (`strict`) an if-expression - what a row `m[i]` with a *variable* index has become when the
+argument is unrolled - is refused (the repaired `C01-len-variable-row`: it used to count as one element) -/
 theorem C01_unroll_partial (st : RSt) (t L : String) (es : List SExp) (T : SExp) (n m c : Nat)
     (ht : lookup st.types t = some (.ann (.sub (.name "Tuple") (.tuple es))))
     (hL : lookup st.types L = some (.ann (matrixTy T n m))) (hc : c < n) :
-    unrollArg st (.name t) = .ok (elems1 t es.length) ∧
-    unrollArg st (.sub (.name L) (.const (.int c))) = .ok (elems2 L c m) ∧
+    (∀ strict, unrollArg st strict (.name t) = .ok (elems1 t es.length)) ∧
+    (∀ strict, unrollArg st strict (.sub (.name L) (.const (.int c))) = .ok (elems2 L c m)) ∧
+    (∀ c' a b, unrollArg st true (.ite c' a b) = .error (.exc "Exception" "Not an iterable of known length")) ∧
     toPs (elems1 t es.length) = (List.range es.length).map (fun (a : Nat) => PExp.subs t [(a : Int)]) ∧
     toPs (elems2 L c m) = (List.range m).map (fun (b : Nat) => PExp.subs L [(c : Int), (b : Int)]) :=
-  ⟨unrollArg_name st t es ht, unrollArg_matrix_row st L T n m c hc hL, toPs_elems1 t _, toPs_elems2 L c m⟩
+  ⟨unrollArg_name st t es ht, unrollArg_matrix_row st L T n m c hc hL, unrollArg_strict_ite st,
+    toPs_elems1 t _, toPs_elems2 L c m⟩
 
 open QV.A2A in
 /-- **C01_builtins_row_partial** – `len`, `sum`, `all`, `any` over a matrix row `L[c]` (`L : Qmatrix[T, n, m]`, `c < n`):
@@ -914,7 +922,7 @@ theorem C01_builtins_row_partial (st : RSt) (L : String) (T : SExp) (n m c : Nat
       List.Forall₂ (fun e b => Sem.semW σ e = some (.bool b)) (e :: es) (b :: bs) →
       Sem.semW σ (.boolop true (e :: es)) = some (pyAll (b :: bs)) ∧
       Sem.semW σ (.boolop false (e :: es)) = some (pyAny (b :: bs))) := by
-  have hrow := unrollArg_matrix_row st L T n m c hc hL
+  have hrow := unrollArg_matrix_row st L T n m c hc hL true
   have hv := visitE_const_sub st L (.int c)
   refine ⟨?_, ?_, ?_, ?_, fun x xs => ⟨sumChain_cons x xs, toP_sumE x xs⟩, fun hm σ => semW_len σ m hm, ?_, ?_⟩
   · rw [visitE_call1 st "len" _ _ hv, visitCall_len st _ _ hrow]; simp [elems2]
@@ -939,7 +947,7 @@ theorem C01_builtins_tuple_partial (st : RSt) (t : String) (es : List SExp) (hd 
     visitE st (.call "sum" [.name t]) = sumChain (elems1 t es.length) ∧
     visitE st (.call "all" [.name t]) = .ok (.boolop true (elems1 t es.length)) ∧
     visitE st (.call "any" [.name t]) = .ok (.boolop false (elems1 t es.length)) := by
-  have hun := unrollArg_name st t es ht
+  have hun := unrollArg_name st t es ht true
   have hv := visitE_user_name st t hd
   refine ⟨?_, ?_, ?_, ?_⟩
   · rw [visitE_call1 st "len" _ _ hv, visitCall_len st _ _ hun]; simp [elems1]
